@@ -4,6 +4,7 @@ package main
 
 import (
 	"github.com/drand/drand/v2/zzverif/cli"
+	"github.com/drand/drand/v2/zzverif/engcrash"
 	"github.com/drand/drand/v2/zzverif/engsecrecy"
 	"github.com/drand/drand/v2/zzverif/extract"
 )
@@ -12,5 +13,6 @@ func main() {
 	cli.Main(map[string]cli.RunFn{
 		"extract": func(out string, _ int64, _ string) error { return extract.Run(cli.Repo, out) },
 		"secrecy": engsecrecy.Run,
+		"crash":   engcrash.Run,
 	})
 }
